@@ -191,10 +191,14 @@ def job_pushpop(kind, k, tier, seed):
         g.append(z3.Implies(alu.fits32(R[f]), post[f] == R[f]))
         what = 'the low 32 bits are restored (the whole accumulator when it fits 32 bits)'
     elif kind == 'simple':
-        g.append(post[simple[name]] == R[simple[name]])
-        what = 'the register is restored'
+        g += same_all(E, post, R)
+        what = 'the register is restored and no other register changes'
     elif kind == 'Px':
-        g += [post['p[%d]' % k] == R['p[%d]' % k], post['pe[%d]' % k] == R['pe[%d]' % k]]
+        # the stack discipline holds everywhere and is a separate obligation: the listed product-shift finding concerns the
+        # restored product only and must not excuse anything else in its input region
+        g += same_all(E, post, R, ('p[%d]' % k, 'pe[%d]' % k))
+        ck.prove('PushPop.frame[%s]' % label, A + CONS + MORE, z3.And(*g), vars=dict(vars_), sample='%s: sp restored, no abort, no register other than the product changed, for every product shift mode' % label)
+        g = [post['p[%d]' % k] == R['p[%d]' % k], post['pe[%d]' % k] == R['pe[%d]' % k]]
         vars_['ps'] = R['ps[%d]' % k]
         vars_['pe'] = R['pe[%d]' % k]
         vars_['p'] = R['p[%d]' % k]
